@@ -221,6 +221,16 @@ def gen_jobs(ctx):
         for w0 in owns[:3]:
             for w in (w0, w0 + 2.0 ** -12, max(w0 - 2.0 ** -11, 0.0) if w0 else 2.0 ** -14):
                 jobs.append(('zero-resolution', case, w, 0.0, rng.random() < 0.5))
+    # a sinusoidal source with own frequency 0 (the constructor default) keeps amplitude AND phase at w = 0
+    for _ in range(15 if quick else 300):
+        case = circgen.random_circuit(rng)
+        srcs = [c for c in case['components'] if c['kind'] in ('ac_voltage_source', 'ac_current_source')]
+        for c in srcs[:2]:
+            c['params']['w'] = 0.0
+            if c['params']['phi'] == 0.0:
+                c['params']['phi'] = rng.choice([0.5, -1.0, 2.5])
+        if srcs:
+            jobs += [('zero-frequency-sinusoidal-source', case, 0.0), ('zero-frequency-sinusoidal-source', case, 2.0 ** -11)]
     # sources far above 1 rad/s: the activity window is ABSOLUTE (|w - w_s| <= resolution), whatever the magnitude of w
     for _ in range(20 if quick else 400):
         case = circgen.random_circuit(rng)
